@@ -369,9 +369,9 @@ pub fn run(ctx: &mut Ctx) {
     let n_entries = reg.entries.len() as u64;
     ctx.max("registry_entries", n_entries);
     // per entry and shard
-    let honest_calls = ctx.budget(3, 300);
-    let n_mut = ctx.budget(400, 120_000);
-    let n_rand = ctx.budget(160, 40_000);
+    let honest_calls = ctx.budget(20, 300);
+    let n_mut = ctx.budget(4_000, 120_000);
+    let n_rand = ctx.budget(1_600, 40_000);
     for (i, e) in reg.entries.iter().enumerate() {
         let e: &dyn Entry = e.as_ref();
         let mut rng = Rng64::derive(ctx.seed, &["c07", e.name()], ctx.shard as u64 * 7919 + ctx.nshards as u64);
